@@ -6,6 +6,17 @@ const v2pkg = "app/core/hydra/swamp/chronicler/v2"
 
 var Checks = []CheckDef{
 	{
+		ID: "C30", Title: "Expiry semantics are consistent across every read and claim path",
+		Claim:   "bounded symbolic execution of the real swamp/beacon/treasure code on an in-memory swamp with one record whose expiry e is a fully symbolic UnixNano (zero, negative/pre-epoch, past, future) and a symbolic clock: e is set through Set, patch-meta set, patch-meta slide (from a second symbolic expiry) or patch-meta clear, with the expiry index built before (hot path) or after (cold build) the write; the stored value, IsExpired, membership in the expiry-ordered index, the expired-shift claim and the expired-patch claim all agree with `e != 0 && e < now`",
+		Trusted: "time.Now is a symbolic non-decreasing clock (verdicts are compared against the clock readings taken before and after); background goroutines of the swamp (close listener) run at lowest priority; gateway wire conversion and reload through gob are covered by C05/C06 harnesses, not here",
+		Harnesses: []HarnessDef{
+			{Pkg: "app/core/hydra/swamp", Func: "VerifC30Expiry", Quick: map[string]int{}, Thorough: map[string]int{}, Covers: []string{"end"}},
+		},
+		Assumptions: []string{"one record", "non-zero instants within the int64 UnixNano range"},
+		Stubs:       []string{"time.Now/Unix/UTC/UnixNano = symbolic clock model", "sync primitives = scheduler models"},
+		Outside:     []string{"expiry filters of the gateway (EXPIRED_AT comparisons)", "reload from disk"},
+	},
+	{
 		ID: "C24", Title: "Compression round-trips and never hides corruption",
 		Claim:   "bounded symbolic execution of the real compressor wrappers (Compress/Decompress and the eight per-algorithm functions, plus io.ReadAll/bytes.Buffer interpreted from source) against a contract model of the four codec libraries: for every algorithm, every input up to maxLen symbolic bytes and every position of a failing library call, a library error is always returned as a non-nil error (never (data, nil) or (nil, nil)); with no failure the round trip is the identity; a damaged frame - whose decoder delivers arbitrary bytes and reports the damage no later than the read that would have returned io.EOF, in reads of arbitrary chunking - yields an error or the original data, i.e. the wrapper always reads the stream to its end",
 		Trusted: "the codec libraries themselves are contract stubs (identity codec with a frame marker, nondeterministic failures, end-of-stream integrity check); the real libraries run in the native replay, where every single-byte damage of the real compressed form is tried. Whether real Snappy detects a corruption (its block format has no checksum) and the real round trip of long inputs are outside the claim",
